@@ -1,4 +1,5 @@
 import Tengo.Proofs.C16CompileFnFile
+import Tengo.Proofs.C16CompileFnNeg
 import Tengo.Props.C16Compile
 /-!
 # C16 — `tail_pattern_sound` from SOURCE, for the compiler model (`Tengo.Model.Compiler`)
@@ -9,15 +10,16 @@ import Tengo.Props.C16Compile
 Source-level notions (all syntactic):
 * `TailE e ell f args` (from `C16Compile`): the call `f(args)` is in tail position of the expression `e`;
 * `TailS last n sp zop zargs`: the statement `last` of a function body `pre…; last; post…` ends with
-  `CALL n sp; zop zargs`: `return e` (`RETURN 1`) or `e;` (`POP`) with `TailE e`; `if c { pre'…; last'; post'… }`
-  without else (the `stmt-in-if` form), the same with an else branch when the tail call is a `return`
+  `CALL n sp; zop zargs`: `return e` (`RETURN 1`) or `e;` (`POP`) with `TailE e`; `if [init;] c { pre'…; last'; post'… }`
+  without else (the `stmt-in-if` form; an init statement must pass), the same with an else branch when the tail call is a `return`
   (`if c { return f(x) } else { … }`), `if c { … } else last'` (`else { … }`, `else if …`),
   `{ pre'…; last'; post'… }`, nested at will. Statements after the tail statement (`post`, `post'`) are allowed
   behind `CALL; RETURN` only (a `CALL; POP` needs the RETURN 0 that `optimizeFunc` appends at the end of the body);
-* `passes st` (decidable): expression statement, assignment `l op= r`, `x++`, `if` with anything inside, `for` WITH a
-  condition, `for … in`, empty statement, `export` — the statements after which `optimizeFunc` never drops the
+* `passes st` (decidable, recursive): expression statement, assignment `l op= r`, `x++`, `if` with anything inside
+  (so every if / else-if / else chain, with or without returns), `for` WITH a condition, `for … in`, a bare block
+  `{ … }` all of whose statements pass, empty statement, `export` — the statements after which `optimizeFunc` never drops the
   following code as dead (every `if` / conditional loop leaves a jump to its own end, the others contain no
-  RETURN). `return`, `break`, `continue`, a bare block and `for { }` without condition are not allowed before the
+  RETURN). `return`, `break`, `continue`, a block containing one of them and `for { }` without condition are not allowed before the
   tail statement (dead code after them is what the optimizer removes; a `for` without condition makes what follows
   dead).
 
@@ -35,6 +37,8 @@ Theorems:
 * `file_self_tail_call_reuses_frame`: the same from `compileFile`: a file whose top-level statement list contains
   `name := func(ps) { pre…; last; post… }` (as above) compiles to a `Bytecode'` with such a function constant, and
   the whole-VM model reuses the frame at that CALL (hypotheses of `compile_verifies` only).
+* `return_operator_not_tail`, `exprstmt_operator_not_tail`: converse for the family `opLast` (binary operators other
+  than `&&`/`||`, index, selector): `return f(x) + 1` is `B ++ [y, RETURN 1]` with `y` an operator instruction, not a CALL.
 * negative contexts, general: `assign_call_not_tail` (`l op= r`, e.g. `a := f(x)`: every CALL in its code is
   followed, inside its code, by an instruction that is neither RETURN nor POP) and `stmt_call_then_more`
   (`e; more` with `more` an expression statement, an assignment or `return e2`: the POP after the call is followed
@@ -63,14 +67,18 @@ example : TailS (.ret (some (.bin "LOr" (.bin "Equal" (.ident "n") (.int 0)) (.c
     1 0 opReturn [1] := .ret (.andor _ (by decide) (.call _ _ _))
 example : TailS (.ifs none (.bin "Greater" (.ident "n") (.int 0))
     ([] ++ [.expr (.call false (.ident "f") [.bin "Sub" (.ident "n") (.int 1)])]) none) 1 0 opPop [] :=
-  .ifThen _ [] [] (Or.inl rfl) (by simp) (.expr (.call _ _ _))
+  .ifThen none _ [] [] (by simp) (Or.inl rfl) (by simp) (.expr (.call _ _ _))
+/-- `if x := g(); x { return f(x) }` (init statement) -/
+example : TailS (.ifs (some (.assign "Define" [.ident "x"] [.call false (.ident "g") []])) (.ident "x")
+    ([] ++ .ret (some (.call false (.ident "f") [.ident "x"])) :: []) none) 1 0 opReturn [1] :=
+  .ifThen _ _ [] [] (by intro st h; cases h; decide) (Or.inl rfl) (by simp) (.ret (.call _ _ _))
 example : TailS (.ifs none (.ident "a") ([] ++ .ret (some (.call false (.ident "f") [.ident "x"])) :: [])
     (some (.block [.ret (some (.int 0))]))) 1 0 opReturn [1] :=
-  .ifThenElse _ [] [] _ (by simp) (.ret (.call _ _ _))
+  .ifThenElse none _ [] [] _ (by simp) (by simp) (.ret (.call _ _ _))
 example : TailS (.ifs none (.ident "a") [.ret (some (.int 1))]
     (some (.block ([.incdec "Inc" (.ident "x")] ++ [.ret (some (.call false (.ident "f") [.ident "x"]))]))))
     1 0 opReturn [1] :=
-  .ifElse _ _ (.block _ [] (Or.inl rfl) (by decide) (.ret (.call _ _ _)))
+  .ifElse none _ _ (by simp) (.block _ [] (Or.inl rfl) (by decide) (.ret (.call _ _ _)))
 
 /-- `if n == 0 { return acc }`, `acc += n`, `g(n)`, `x++`, `if a { return 1 } else { return 2 }`,
 `for i < n { return 1 }`, `for x in xs { }` pass; `return`, `break`, `for { }` and a bare block do not -/
@@ -81,6 +89,7 @@ example : passes (.ifs none (.bin "Equal" (.ident "n") (.int 0)) [.ret (some (.i
     passes (.ifs none (.ident "a") [.ret (some (.int 1))] (some (.block [.ret (some (.int 2))]))) = true ∧
     passes (.fors none (some (.bin "Less" (.ident "i") (.ident "n"))) none [.ret (some (.int 1))]) = true ∧
     passes (.forin "_" "x" (.ident "xs") []) = true ∧
+    passes (.block [.incdec "Inc" (.ident "x"), .block [.empty]]) = true ∧
     passes (.ret none) = false ∧ passes (.branch "Break") = false ∧ passes (.fors none none none []) = false ∧
     passes (.block [.ret none]) = false := by decide
 
@@ -449,6 +458,39 @@ theorem stmt_call_then_more {d : Nat} {e : Expr} {ell : Bool} {f : Expr} {args :
   have : (Instr.mk (totalSize L + totalSize B0 + 3) opPop []).size = 1 := rfl
   omega
 
+/-! ## (3') converse for a family of non-tail expression forms -/
+
+/-- expression forms whose code ends with an operator instruction: binary operators other than `&&` / `||`,
+index and selector expressions -/
+abbrev opLast := Tengo.Proofs.C16Fn.opLast
+/-- the instruction is neither CALL nor POP nor RETURN -/
+abbrev OpI := Tengo.Proofs.C16Fn.OpI
+
+example : opLast (.bin "Add" (.call false (.ident "f") [.ident "x"]) (.int 1)) = true ∧
+    opLast (.idx (.call false (.ident "f") [.ident "x"]) (.int 0)) = true ∧
+    opLast (.bin "LOr" (.ident "a") (.call false (.ident "f") [.ident "x"])) = false ∧
+    opLast (.call false (.ident "f") [.ident "x"]) = false := by decide
+
+/-- **`return f(x) + 1`, `return 1 + f(x)`, `return f(x) == y`, `return f(x)[i]`, `return f(x).k` are NOT tail calls:**
+the code of the statement is `B ++ [y, RETURN 1]` where `B` contains neither POP nor RETURN and `y` (BINARYOP /
+EQUAL / NOTEQUAL / INDEX) is neither CALL nor POP nor RETURN. So the RETURN is preceded by `y`, not by a CALL, and
+every CALL of `B` is followed by an instruction of `B ++ [y]`; with `opt_keeps_next` this stays so in the function
+constant. -/
+theorem return_operator_not_tail {d : Nat} (e : Expr) (he : opLast e = true) (s s' : CState) (L : List Instr)
+    (F : List Nat) (h : compileStmt (d + 2) (.ret (some e)) s = .ok ((), s')) (hinv : Inv s L F)
+    (hsz : szS (d + 2) (.ret (some e)) < 2 ^ 30) :
+    ∃ B y F', Inv s' (L ++ B ++ [y, ⟨y.pos + y.size, opReturn, [1]⟩]) F' ∧
+      (∀ i ∈ B, i.op ≠ opPop ∧ i.op ≠ opReturn) ∧ OpI y :=
+  ret_oplast_not_tail e he s s' L F h hinv hsz
+
+/-- … and as a statement: `f(x) + 1;` is `B ++ [y, POP]`. -/
+theorem exprstmt_operator_not_tail {d : Nat} (e : Expr) (he : opLast e = true) (s s' : CState) (L : List Instr)
+    (F : List Nat) (h : compileStmt (d + 2) (.expr e) s = .ok ((), s')) (hinv : Inv s L F)
+    (hsz : szS (d + 2) (.expr e) < 2 ^ 30) :
+    ∃ B y F', Inv s' (L ++ B ++ [y, ⟨y.pos + y.size, opPop, []⟩]) F' ∧
+      (∀ i ∈ B, i.op ≠ opPop ∧ i.op ≠ opReturn) ∧ OpI y :=
+  exprstmt_oplast_not_tail e he s s' L F h hinv hsz
+
 /-! ## Non-vacuity -/
 
 /-- the state after `f` has been declared (what `f := func…` does before compiling the literal) -/
@@ -489,7 +531,7 @@ example (s' : CState) (h : compileExpr 40 demoLitIf demoState = .ok ((), s'))
       (∃ insts, decode code = some insts ∧ (⟨p + 3, opPop, []⟩ : Instr) ∈ insts ∧
         (⟨p + 4, opReturn, [0]⟩ : Instr) ∈ insts) ∧
       (code.getD (p + 3) 0).toNat = opPop ∧ (code.getD (p + 4) 0).toNat = opReturn :=
-  func_stmt_tail_call (d := 39) false ["n"] _ (.ifThen _ _ [] (Or.inl rfl) (by decide) (.expr (.call _ _ _))) (by decide)
+  func_stmt_tail_call (d := 39) false ["n"] _ (.ifThen none _ _ [] (by simp) (Or.inl rfl) (by decide) (.expr (.call _ _ _))) (by decide)
     demoState s' [] [] h demoState_inv (by decide +kernel) hc hg
 
 /-- `func(n, acc) { if n > 0 { return f(n - 1, acc + n) }; return acc }`: the tail call sits in an `if` that is
@@ -511,7 +553,7 @@ example (s' : CState) (h : compileExpr 40 demoLitMid demoState = .ok ((), s'))
       (∃ insts, decode code = some insts ∧ (⟨p + 3, opReturn, [1]⟩ : Instr) ∈ insts) ∧
       (code.getD (p + 3) 0).toNat = opReturn :=
   func_return_tail_call (d := 39) false ["n", "acc"] [] [.ret (some (.ident "acc"))]
-    (.ifThen _ [] [] (Or.inl rfl) (by simp) (.ret (.call _ _ _))) (by decide)
+    (.ifThen none _ [] [] (by simp) (Or.inl rfl) (by simp) (.ret (.call _ _ _))) (by decide)
     demoState s' [] [] h demoState_inv (by decide +kernel) hc hg
 
 /-- the hypotheses of (1)/(2) hold for `demoLit` in `demoState`: it compiles, within the bounds -/
@@ -562,6 +604,18 @@ example : ∀ bc, compileFile demoFile [] = .ok bc → ∃ (k : Nat) (code : Byt
   simp only [Bool.and_eq_true, decide_eq_true_eq] at hb
   exact file_self_tail_call_reuses_frame [] _ "sum" false ["n", "acc"] _ [] (.ret (.call _ _ _)) (by decide) [] bc h
     (by decide +kernel) hb.1 hb.2
+
+/-- the hypotheses of `return_operator_not_tail` hold for `return f(1) + 1` inside a function scope, and those of
+`exprstmt_operator_not_tail` for `f(1)[0];` -/
+example : (match compileStmt 10 (.ret (some (.bin "Add" (.call false (.ident "f") [.int 1]) (.int 1)))) (enterS demoState) with
+    | .ok _ => true
+    | .error _ => false) = true ∧
+    (match compileStmt 10 (.expr (.idx (.call false (.ident "f") [.int 1]) (.int 0))) demoState with
+    | .ok _ => true
+    | .error _ => false) = true := by
+  constructor <;> decide +kernel
+
+example : Inv (enterS demoState) [] [] := demoState_inv.enter
 
 /-- the hypotheses of `assign_call_not_tail` hold for `a := f(1)` … -/
 example : (match compileStmt 10 (.assign "Define" [.ident "a"] [.call false (.ident "f") [.int 1]]) demoState with
